@@ -11,7 +11,7 @@ open Ggql Ggql.Driver
 def genTables : Tables :=
   { skip := Gen.skipTable,
     valueTbl := { charMap := Gen.charMap, numMap := Gen.numMap, spaceClass := Gen.spaceClass, tokenClass := Gen.tokenClass,
-                  numClass := Gen.numClass, escapes := Gen.escapeTable, unescapes := Gen.unescapeTable, terminators := Gen.numberTerminators }, locks := Gen.lockTable,
+                  numClass := Gen.numClass, escapes := Gen.escapeTable, unescapes := Gen.unescapeTable, terminators := Gen.numberTerminators, jsonKeysEscaped := Gen.jsonKeysEscaped }, locks := Gen.lockTable,
     outInt := Gen.coerceOutInt, inInt := Gen.coerceInInt,
     outInt64 := Gen.coerceOutInt64, inInt64 := Gen.coerceInInt64,
     outFloat := Gen.coerceOutFloat, inFloat := Gen.coerceInFloat,
